@@ -40,7 +40,17 @@ impl ElfSectionsTag {
     /// Get an iterator over the ELF sections.
     #[must_use]
     pub const fn sections(&self) -> ElfSectionIter {
-        let string_section_offset = (self.shndx * self.entry_size) as isize;
+        // All section headers, and the header of the string table they refer
+        // to, must lie inside the tag.
+        let len = self.sections.len() as u64;
+        let entry_size = self.entry_size as u64;
+        assert!(self.number_of_sections as u64 * entry_size <= len);
+        let string_section_offset = if self.number_of_sections == 0 {
+            0
+        } else {
+            assert!((self.shndx as u64 + 1) * entry_size <= len);
+            (self.shndx as u64 * entry_size) as isize
+        };
         let string_section_ptr =
             unsafe { self.sections.as_ptr().offset(string_section_offset) as *const _ };
         ElfSectionIter {
